@@ -1,0 +1,243 @@
+//go:build verif
+
+// Contracts for the verifier in /verif (comment-only; adds no code).
+package parser
+
+//@ safetyprop C14
+
+// T3: the ANTLR runtime and the generated recogniser are deterministic and side-effect free for the
+// conversion layer: every accessor is an (uninterpreted) function of its receiver.
+//@ externpure /internal/parser/antlr. github.com/antlr4-go/antlr/v4.
+
+// T3: the context interfaces of the generated recogniser are implemented only by the generated context
+// structs (the type switches of the conversion layer end in a default that panics)
+//@ closed antlr.IMonetaryLitContext antlr.IPortionContext antlr.IValueExprContext antlr.IFunctionCallArgsContext antlr.IFunctionCallContext antlr.IVarOriginContext antlr.IVarDeclarationContext antlr.IVarsDeclarationContext antlr.IProgramContext antlr.ISentAllLitContext antlr.IAllotmentContext antlr.ISourceContext antlr.IAllotmentClauseSrcContext antlr.IKeptOrDestinationContext antlr.IDestinationInOrderClauseContext antlr.IDestinationContext antlr.IAllotmentClauseDestContext antlr.ISentValueContext antlr.IStatementContext
+
+//@ func (*Position).GtEq
+//@   requires [recv] p1 != nil
+//@   ensures [lexicographic] {C15} result == (p1.Line > p2.Line || (p1.Line == p2.Line && p1.Character >= p2.Character))
+//@   modifies nothing
+
+//@ func (Range).Contains
+//@   ensures [contains] {C15,C19} result == ((position.Line > r.Start.Line || (position.Line == r.Start.Line && position.Character >= r.Start.Character)) && (r.End.Line > position.Line || (r.End.Line == position.Line && r.End.Character >= position.Character)))
+//@   modifies nothing
+
+// a token: line >= 1, column >= 0 (ANTLR counts characters); the range ends after its last character
+//@ extern invoke:Token.GetLine(recv)
+//@   ensures [line] result >= 1
+//@ extern invoke:Token.GetColumn(recv)
+//@   ensures [column] result >= 0
+
+//@ func tokenToRange
+//@   requires [token] tk != nil
+//@   ensures [range-in-characters] {C15} result.Start.Line == tk.GetLine() - 1 && result.Start.Character == tk.GetColumn() && result.End.Line == tk.GetLine() - 1 && result.End.Character == tk.GetColumn() + srunes(tk.GetText())
+//@   ensures [ordered] {C15,C18} result.Start.Line >= 0 && result.Start.Character >= 0 && result.End.Character >= result.Start.Character
+//@   modifies nothing
+
+// ---------------------------------------------------------------- T3: what is assumed about ANTLR
+// (each is a fact about the generated recogniser / the runtime v4.13.1; they are ASSUMPTIONS, listed in
+// the trusted base of every run that uses them)
+
+//@ axiom [t3-token-text] foralltyped(t, antlr.Token, t != nil ==> slen(t.GetText()) >= 1 && srunes(t.GetText()) >= 1 && srunes(t.GetText()) <= slen(t.GetText()))
+//@ axiom [t3-start-stop] foralltyped(c, antlr.ParserRuleContext, c != nil ==> c.GetStart() != nil && c.GetStop() != nil)
+
+//@ extern invoke:ParserRuleContext.GetStart(recv)
+//@   ensures [start] result != nil
+//@ extern invoke:ParserRuleContext.GetStop(recv)
+//@   ensures [stop] result != nil
+
+//@ func ctxToRange
+//@   requires [ctx] ctx != nil
+//@   ensures [range-in-characters] {C15} result.Start.Line == ctx.GetStart().GetLine() - 1 && result.Start.Character == ctx.GetStart().GetColumn() && result.End.Line == ctx.GetStop().GetLine() - 1 && result.End.Character == ctx.GetStop().GetColumn() + srunes(ctx.GetStop().GetText())
+//@   ensures [nonneg] {C15,C18} result.Start.Line >= 0 && result.Start.Character >= 0 && result.End.Line >= 0 && result.End.Character >= 1
+//@   modifies nothing
+
+// T3 (error recovery): the generated rule method of a rule enters the sub-rule / matches the token of the FIRST element
+// of an alternative before anything can fail, so the accessor of a first element never returns nil on an existing context;
+// accessors of later elements may (the conversion layer guards those). A labelled alternative's context type is only
+// created once the alternative has been predicted from the next token, so its text starts with that token.
+//@ axiom [t3-first-allotment-src] foralltyped(c, antlr.IAllotmentClauseSrcContext, c != nil ==> c.Allotment() != nil)
+//@ axiom [t3-first-allotment-dest] foralltyped(c, antlr.IAllotmentClauseDestContext, c != nil ==> c.Allotment() != nil)
+//@ axiom [t3-first-portion-lit] foralltyped(c, *antlr.PortionLiteralContext, c != nil ==> c.Portion() != nil)
+//@ axiom [t3-first-portion-allot] foralltyped(c, *antlr.PortionedAllotmentContext, c != nil ==> c.Portion() != nil)
+//@ axiom [t3-first-monetary] foralltyped(c, *antlr.MonetaryLiteralContext, c != nil ==> c.MonetaryLit() != nil)
+//@ axiom [t3-first-number] foralltyped(c, *antlr.NumberLiteralContext, c != nil ==> c.NUMBER() != nil)
+//@ axiom [t3-first-sentall] foralltyped(c, *antlr.SentAllContext, c != nil ==> c.SentAllLit() != nil)
+// the keyword that selects the statement alternative is matched, then the sent value rule is entered
+//@ axiom [t3-second-sent-save] foralltyped(c, *antlr.SaveStatementContext, c != nil ==> c.SentValue() != nil)
+//@ axiom [t3-second-sent-send] foralltyped(c, *antlr.SendStatementContext, c != nil ==> c.SentValue() != nil)
+// op is assigned from LT(1), which is never nil (EOF at the end)
+//@ axiom [t3-infix-op] foralltyped(c, *antlr.InfixExprContext, c != nil ==> c.GetOp() != nil)
+//@ axiom [t3-terminal-symbol] foralltyped(n, antlr.TerminalNode, n != nil ==> n.GetSymbol() != nil)
+// token shapes (lexer rules STRING, ACCOUNT, VARIABLE_NAME, RATIO_PORTION_LITERAL, PERCENTAGE_PORTION_LITERAL)
+//@ axiom [t3-text-string] foralltyped(c, *antlr.StringLiteralContext, c != nil ==> slen(c.GetText()) >= 2)
+//@ axiom [t3-text-account] foralltyped(c, *antlr.AccountLiteralContext, c != nil ==> slen(c.GetText()) >= 2)
+//@ axiom [t3-text-variable] foralltyped(c, *antlr.VariableExprContext, c != nil ==> slen(c.GetText()) >= 2)
+//@ axiom [t3-text-portion-variable] foralltyped(c, *antlr.PortionVariableContext, c != nil ==> slen(c.GetText()) >= 2)
+//@ axiom [t3-text-ratio] foralltyped(c, *antlr.RatioContext, c != nil ==> ratioText(c.GetText()))
+//@ axiom [t3-text-percentage] foralltyped(c, *antlr.PercentageContext, c != nil ==> percentText(c.GetText()))
+
+// [0-9]+ ' '? '/' ' '? [0-9]+ : two parts around the only '/', numerals once the blanks are trimmed
+//@ spec ratioText(s) = nsplit(s, "/") == 2 && isnumeral(trimspace(splitpart(s, "/", 0)), 10) && isnumeral(trimspace(splitpart(s, "/", 1)), 10)
+// [0-9]+ ('.' [0-9]+)? '%' : the digits before and after the point form a numeral
+//@ spec percentDigits(s) = cutbefore(trimsuffix(s, "%"), ".") + cutafter(trimsuffix(s, "%"), ".")
+//@ spec percentText(s) = isnumeral(percentDigits(s), 10)
+
+// ---------------------------------------------------------------- the conversion layer (parse tree -> AST)
+
+//@ func parseVarsDeclaration
+//@   modifies nothing
+
+//@ func parseProgram
+//@   requires [ctx] programCtx != nil
+//@   modifies nothing
+
+//@ func parseVarDeclaration
+//@   modifies nothing
+
+//@ func parseVarLiteral
+//@   modifies nothing
+
+//@ func parseVarType
+//@   modifies nothing
+
+//@ func parseSource
+//@   modifies nothing
+
+//@ func unsafeParseBigInt
+//@   requires [numeral] isnumeral(trimspace(s), 10)
+//@   ensures [base-ten] {C13} result != nil && val(result) == numval(trimspace(s), 10) && fresh(result)
+//@   modifies nothing
+
+//@ func parseRatio
+//@   requires [ratio-text] ratioText(source)
+//@   ensures [ratio-base-ten] {C13} result != nil && fresh(result) && val(result.Numerator) == numval(trimspace(splitpart(source, "/", 0)), 10) && val(result.Denominator) == numval(trimspace(splitpart(source, "/", 1)), 10)
+//@   ensures [range] {C15} result.Range == range_
+//@   modifies nothing
+
+//@ func ParsePercentageRatio
+//@   ensures [percent-ok] {C13,C14} (err == nil) == percentText(source)
+//@   ensures [percent-base-ten] {C13} err == nil ==> result0 != nil && result1 != nil && val(result0) == numval(percentDigits(source), 10) && val(result1) == bigexp(10, 2 + slen(cutafter(trimsuffix(source, "%"), ".")))
+//@   modifies nothing
+
+//@ func parsePercentageRatio
+//@   requires [percent-text] percentText(source)
+//@   ensures [percent-base-ten] {C13} result != nil && fresh(result) && val(result.Numerator) == numval(percentDigits(source), 10) && val(result.Denominator) == bigexp(10, 2 + slen(cutafter(trimsuffix(source, "%"), ".")))
+//@   ensures [range] {C15} result.Range == range_
+//@   modifies nothing
+
+//@ func parseAllotment
+//@   requires [ctx] allotmentCtx != nil
+//@   modifies nothing
+
+//@ func parseStringLiteralCtx
+//@   requires [ctx] stringCtx != nil
+//@   modifies nothing
+
+//@ func parseValueExpr
+//@   modifies nothing
+
+//@ func variableLiteralFromCtx
+//@   requires [ctx] ctx != nil && slen(ctx.GetText()) >= 1
+//@   modifies nothing
+
+//@ func parsePortionSource
+//@   requires [ctx] portionCtx != nil
+//@   modifies nothing
+
+//@ func parseDestination
+//@   modifies nothing
+
+//@ func parseDestinationInorderClause
+//@   requires [ctx] clauseCtx != nil
+//@   modifies nothing
+
+//@ func parseKeptOrDestination
+//@   modifies nothing
+
+//@ func parseDestinationAllotment
+//@   requires [ctx] allotmentCtx != nil
+//@   modifies nothing
+
+//@ func parseDestinationPortion
+//@   requires [ctx] portionCtx != nil
+//@   modifies nothing
+
+//@ func parseFnArgs
+//@   modifies nothing
+
+//@ func parseFnCall
+//@   modifies nothing
+
+//@ func parseSaveStatement
+//@   requires [ctx] saveCtx != nil
+//@   modifies nothing
+
+//@ func parseStatement
+//@   requires [ctx] statementCtx != nil
+//@   modifies nothing
+
+//@ func parseSentValue
+//@   requires [ctx] statementCtx != nil
+//@   modifies nothing
+
+//@ func parseSendStatement
+//@   requires [ctx] statementCtx != nil
+//@   modifies nothing
+
+//@ func parseNumberLiteral
+//@   requires [node] numNode != nil
+//@   modifies nothing
+
+//@ func parseMonetaryLit
+//@   requires [ctx] monetaryLitCtx != nil
+//@   modifies nothing
+
+// ---------------------------------------------------------------- errors and their display
+
+// a range that lies on the lines of the source (the comment on ShowOnSource: "Pre: valid range")
+//@ spec rangeOn(r, source) = 0 <= r.Start.Line && r.Start.Line <= r.End.Line && r.End.Line < nsplit(source, "\n") && r.Start.Character >= 0 && r.End.Character >= 0 && (r.Start.Line == r.End.Line ==> r.End.Character >= r.Start.Character) && (r.Start.Line != r.End.Line ==> r.Start.Character <= slen(splitpart(source, "\n", r.Start.Line)))
+
+//@ func (Range).ShowOnSource
+//@   requires [valid-range] rangeOn(r, source)
+//@   modifies nothing
+//@   loop 1
+//@     invariant [range] rangeOn(r, source)
+
+//@ func ParseErrorsToString
+//@   requires [valid-ranges] forall(i, 0, len(errors), rangeOn(errors[i].Range, source))
+//@   modifies nothing
+//@   loop 1
+//@     invariant [ranges] forall(i, 0, len(errors), rangeOn(errors[i].Range, source))
+
+// T3: ANTLR reports a syntax error at a 1-based line and a 0-based column
+//@ func (*ErrorListener).SyntaxError
+//@   requires [recv] l != nil
+//@   requires [t3-callback-position] startL >= 1 && startC >= 0
+//@   ensures [appended] {C14} len(l.Errors) == old(len(l.Errors)) + 1 && forall(i, 0, old(len(l.Errors)), l.Errors[i] == old(l.Errors[i]))
+//@   ensures [located] {C14} l.Errors[old(len(l.Errors))].Range.Start.Line == startL - 1 && l.Errors[old(len(l.Errors))].Range.Start.Character == startC && l.Errors[old(len(l.Errors))].Range.End.Line == startL - 1 && l.Errors[old(len(l.Errors))].Range.End.Character >= startC && l.Errors[old(len(l.Errors))].Msg == msg
+//@   modifies l.Errors, elems(l.Errors)
+
+// the recogniser runs the registered error listener: SyntaxError appends to the Errors of a listener
+//@ extern (*antlr.NumscriptParser).Program(recv)
+//@   ensures [program] result != nil
+//@   modifies allof(ErrorListener), allelems(ParserError)
+
+// every token of the stream is a token
+//@ axiom [t3-tokens] foralltyped(t, antlr.Token, t != nil ==> t.GetLine() >= 1 && t.GetColumn() >= 0)
+
+//@ func Parse
+//@   ensures [source] {C15} result.Source == input
+//@   modifies allof(ErrorListener), allelems(ParserError)
+//@   loop 1
+//@     invariant [listener] listener != nil
+
+// constructors of the runtime and of the generated recogniser return their object
+//@ extern v4.NewInputStream(data)
+//@   ensures [new] result != nil
+//@ extern antlr.NewNumscriptLexer(input)
+//@   ensures [new] result != nil && result.BaseLexer != nil && result.BaseLexer.BaseRecognizer != nil
+//@ extern v4.NewCommonTokenStream(lexer, channel)
+//@   ensures [new] result != nil
+//@ extern antlr.NewNumscriptParser(input)
+//@   ensures [new] result != nil && result.BaseParser != nil && result.BaseParser.BaseRecognizer != nil
